@@ -11,14 +11,19 @@ package main
 //   C06 (TestVerifC06Daemon): certificate credentials at the TLS boundary.
 //   C09 (TestVerifC09Daemon): sealed daemon - closed service port, nothing
 //       signed on the admin port, injections, one transition, then service.
+//   C11 (TestVerifC11Daemon): automation certificates for three requestor key
+//       types presented from inside / outside their netblock (source address
+//       bound by the client), Ed25519 CA configured.
 //   C16 (TestVerifC16Daemon): concurrent real-HTTPS workload against the
 //       -race build; the daemon's own race log is classified.
 
 import (
 	"crypto"
 	"crypto/ecdsa"
+	"crypto/ed25519"
 	"crypto/elliptic"
 	"crypto/rand"
+	"crypto/rsa"
 	"crypto/tls"
 	"crypto/x509"
 	"crypto/x509/pkix"
@@ -656,4 +661,111 @@ func TestVerifC16Daemon(t *testing.T) {
 	rep.Count("daemon_race_workload_done", 1)
 	rep.Floor("daemon_race_workload_done", 1)
 	rep.Floor("daemon_u2f_ceremonies", 3)
+}
+
+// ------------------------------------------------------------------- C11
+
+// dbClientFrom is dbClient with the TCP connection made from the given local address (127.0.0.2 is as good a source
+// address on loopback as 127.0.0.1, and a different one).
+func dbClientFrom(d *verifDaemon, cert *tls.Certificate, localIP string) *http.Client {
+	c := dbClient(d, cert)
+	tr := c.Transport.(*http.Transport)
+	dialer := &net.Dialer{Timeout: 10 * time.Second, LocalAddr: &net.TCPAddr{IP: net.ParseIP(localIP)}}
+	tr.DialContext = dialer.DialContext
+	return c
+}
+
+func TestVerifC11Daemon(t *testing.T) {
+	rep := newVerifReport("C11", "(engine B) real keymasterd binary with an Ed25519 CA next to the RSA one, real TLS: automation certificates minted through the administrator's route for requestor keys of three types (ECDSA P-256, RSA 2048, Ed25519) and the netblock 127.0.0.1/32, then presented in real handshakes from 127.0.0.1 (inside) and from 127.0.0.2 / 127.0.0.3 (outside: the client binds its source address) to the certificate route, the refresh route and an administrator route; admitted <=> the TCP peer is inside and the route takes IP-restricted certificates; class = (requestor key type, route, source, outcome)")
+	defer rep.Finish()
+	d, err := verifStartDaemon(verifDaemonOpts{Name: "c11b", Users: map[string]string{"root1": "root1-pw"},
+		AllowedCerts: []string{"password", "IPCertificate"}, AllowedWebUI: []string{"password"}, AdminUsers: []string{"root1", "autobot"},
+		AutomationUsers: []string{"autobot"}, Ed25519: true})
+	if err != nil {
+		rep.Inconc("daemon: %v", err)
+		return
+	}
+	defer d.Stop()
+	rootCk, err := dbLogin(d, "root1", "root1-pw")
+	if err != nil {
+		rep.Inconc("login over real TLS failed: %v\n%s", err, dbDaemonTail(d))
+		return
+	}
+	type kt struct {
+		name string
+		key  crypto.Signer
+	}
+	var keys []kt
+	if k, err := ecdsa.GenerateKey(elliptic.P256(), rand.Reader); err == nil {
+		keys = append(keys, kt{"ecdsa-p256", k})
+	}
+	if k, err := rsa.GenerateKey(rand.Reader, 2048); err == nil {
+		keys = append(keys, kt{"rsa-2048", k})
+	}
+	if _, k, err := ed25519.GenerateKey(rand.Reader); err == nil {
+		keys = append(keys, kt{"ed25519", k})
+	}
+	refreshKey, _ := ecdsa.GenerateKey(elliptic.P256(), rand.Reader)
+	for _, k := range keys {
+		q := verifRoleMintReq("autobot", k.key.Public(), []string{"127.0.0.1/32"}, []string{"127.0.0.1/32"}, nil)
+		q.Cookies = verifCk(rootCk)
+		r, err := dbSend(d, dbClient(d, nil), q, false)
+		if err != nil || r.Code != 200 {
+			code := 0
+			if r != nil {
+				code = r.Code
+			}
+			rep.Obs("minting an automation certificate for a %s requestor key failed (%v, status %d): key type left out", k.name, err, code)
+			continue
+		}
+		leaf, err := verifParseX509PEM(r.Body)
+		if err != nil {
+			rep.Inconc("minted certificate for %s does not parse: %v", k.name, err)
+			continue
+		}
+		rep.Count("daemon_role_certificates_minted", 1)
+		tc := dbTLSCert(leaf, k.key)
+		for _, src := range []string{"127.0.0.1", "127.0.0.2", "127.0.0.3"} {
+			inside := src == "127.0.0.1"
+			for _, route := range []string{"certgen", "refresh", "users"} {
+				var q verifReq
+				takesIPCert := true
+				switch route {
+				case "certgen":
+					q = verifCertReq("autobot", "x509", verifPKIXPEM(refreshKey.Public()), "1h", nil)
+				case "refresh":
+					q = verifRoleRefreshReq(refreshKey.Public())
+				default:
+					q = verifReq{Method: "GET", Path: "/users/"}
+					takesIPCert = false
+				}
+				r, err := dbSend(d, dbClientFrom(d, tc, src), q, false)
+				outcome, admitted := "handshake-or-transport-error", false
+				if err == nil {
+					outcome = fmt.Sprint(r.Code)
+					admitted = r.Code == 200
+				}
+				rep.Eval(fmt.Sprintf("daemon|%s|%s|inside=%v|%s", k.name, route, inside, outcome))
+				c := map[string]interface{}{"requestor_key": k.name, "route": route, "source_address": src, "netblock": "127.0.0.1/32", "outcome": outcome,
+					"certificate_issuer": leaf.Issuer.String()}
+				if err != nil {
+					c["error"] = firstLines(err.Error(), 1)
+				}
+				switch {
+				case admitted && !inside:
+					rep.Violate("C11/daemon/admitted-outside/"+route+"/"+k.name, "an automation certificate restricted to 127.0.0.1/32 was honoured in a handshake from "+src, c)
+				case admitted && !takesIPCert:
+					rep.Violate("C11/daemon/admitted-on-non-ip-route/"+route+"/"+k.name, "an IP-restricted certificate was honoured on a route that does not take them", c)
+				case !admitted && inside && takesIPCert:
+					rep.Violate("C11/daemon/refused-inside/"+route+"/"+k.name, "an automation certificate was refused from inside its netblock", c)
+				default:
+					rep.Count(fmt.Sprintf("daemon_ip_cert_probes_admitted_%v", admitted), 1)
+					rep.Sample("daemon-ipcert:"+route+":"+fmt.Sprint(inside), 1, c)
+				}
+			}
+		}
+	}
+	rep.Floor("daemon_role_certificates_minted", 2)
+	rep.Floor("daemon_ip_cert_probes_admitted_true", 4)
+	rep.Floor("daemon_ip_cert_probes_admitted_false", 12)
 }
